@@ -423,14 +423,14 @@ Section QueriesProofs.
   (** On a DAG, with fuel [|V| + 1], [get_nodes_between] returns exactly the vertices lying on
       a directed path from [a] to [b] (endpoints included), and the empty set when there is
       none. *)
-  Theorem nodes_between_correct (g : digraph) a b :
-    wf g -> acyclic g ->
-    exists S, nodes_between eqb (length (verts g) + 1) g a b = Some S /\
+  Theorem nodes_between_correct_fuel (g : digraph) a b fuel :
+    wf g -> acyclic g -> fuel > length (verts g) ->
+    exists S, nodes_between eqb fuel g a b = Some S /\
       (forall v, In v S <-> ((v = a \/ path g a v) /\ (v = b \/ path g v b))) /\
       (~ (a = b \/ path g a b) -> S = []) /\ NoDup S.
   Proof.
-    intros Hwf Hac. unfold nodes_between.
-    destruct (@nb_inner_spec g b Hwf Hac (length (verts g) + 1) a) with (seen0 := @nil (A * bool))
+    intros Hwf Hac Hfuel. unfold nodes_between.
+    destruct (@nb_inner_spec g b Hwf Hac fuel a) with (seen0 := @nil (A * bool))
       as (r & seen & E & Hr & Hpost).
     { pose proof (@desc_length_le _ eqb eqb_spec g a Hwf) as Hle. lia. }
     { split; [constructor|]. split; [intros x r0 []|intros x c []]. }
@@ -469,6 +469,13 @@ Section QueriesProofs.
         destruct Hvb as [<-|Hvb]; [exact Hav|eapply t_trans; eassumption]. }
       apply Hr in Hab. discriminate.
   Qed.
+
+  Corollary nodes_between_correct (g : digraph) a b :
+    wf g -> acyclic g ->
+    exists S, nodes_between eqb (length (verts g) + 1) g a b = Some S /\
+      (forall v, In v S <-> ((v = a \/ path g a v) /\ (v = b \/ path g v b))) /\
+      (~ (a = b \/ path g a b) -> S = []) /\ NoDup S.
+  Proof. intros Hwf Hac. apply nodes_between_correct_fuel; [exact Hwf|exact Hac|lia]. Qed.
 
   (** * [directed_path_exists] *)
 
@@ -513,14 +520,19 @@ Section QueriesProofs.
   (** On a DAG the visited-set-free DFS terminates within recursion depth [|V|] and decides
       directed reachability by a non-empty path.  (On a cyclic graph the Python recursion does
       not terminate; the model then runs out of fuel: see [directed_path_exists_cyclic].) *)
-  Theorem directed_path_exists_correct (g : digraph) a b :
+  Theorem directed_path_exists_correct_fuel (g : digraph) a b fuel :
+    wf g -> acyclic g -> In a (verts g) -> fuel >= length (verts g) ->
+    exists r, directed_path_exists eqb fuel g a b = Some r /\ (r = true <-> path g a b).
+  Proof.
+    intros Hwf Hac Ha Hfuel. unfold directed_path_exists. apply dpe_spec; try assumption.
+    pose proof (@desc_length_lt _ eqb eqb_spec g a Hwf Hac Ha) as Hlt. lia.
+  Qed.
+
+  Corollary directed_path_exists_correct (g : digraph) a b :
     wf g -> acyclic g -> In a (verts g) ->
     exists r, directed_path_exists eqb (length (verts g)) g a b = Some r /\
               (r = true <-> path g a b).
-  Proof.
-    intros Hwf Hac Ha. unfold directed_path_exists. apply dpe_spec; try assumption.
-    apply (@desc_length_lt _ eqb eqb_spec g a Hwf Hac Ha).
-  Qed.
+  Proof. intros Hwf Hac Ha. apply directed_path_exists_correct_fuel; try assumption. lia. Qed.
 
   Corollary directed_path_exists_iff (g : digraph) a b :
     wf g -> acyclic g -> In a (verts g) ->
@@ -819,13 +831,13 @@ Section QueriesProofs.
   Qed.
 
   (** Position of the first occurrence (used only as a rank function inside proofs). *)
-  Fixpoint index (x : A) (l : list A) : nat :=
+  Fixpoint topo_index (x : A) (l : list A) : nat :=
     match l with
     | [] => 0
-    | y :: l' => if eqb x y then 0 else S (index x l')
+    | y :: l' => if eqb x y then 0 else S (topo_index x l')
     end.
 
-  Lemma index_app x l1 r : ~ In x l1 -> index x (l1 ++ x :: r) = length l1.
+  Lemma index_app x l1 r : ~ In x l1 -> topo_index x (l1 ++ x :: r) = length l1.
   Proof.
     induction l1 as [|a l1 IH]; intros Hnin; simpl.
     - rewrite eqb_refl. reflexivity.
@@ -833,7 +845,7 @@ Section QueriesProofs.
       rewrite IH; [reflexivity|]. intros Hin; apply Hnin; right; exact Hin.
   Qed.
 
-  Lemma before_index l a b : NoDup l -> before l a b -> index a l < index b l.
+  Lemma before_index l a b : NoDup l -> before l a b -> topo_index a l < topo_index b l.
   Proof.
     intros Hnd (l1 & l2 & l3 & ->).
     assert (Ha : ~ In a l1).
@@ -848,16 +860,49 @@ Section QueriesProofs.
 
   (** In a topological order the position strictly increases along every arc ... *)
   Theorem topo_order_index (g : digraph) l :
-    wf g -> topo_order g l -> forall a b, arc g a b -> index a l < index b l.
+    wf g -> topo_order g l -> forall a b, arc g a b -> topo_index a l < topo_index b l.
   Proof.
     intros Hwf [Hperm Hb] a b Hab. apply before_index; [|apply Hb, Hab].
     apply (Permutation_NoDup (Permutation_sym Hperm)), Hwf.
   Qed.
 
+  Lemma topo_index_before l a b :
+    In a l -> In b l -> topo_index a l < topo_index b l -> before l a b.
+  Proof.
+    induction l as [|x l IH]; intros Ha Hb Hlt; [contradiction|]. simpl in Hlt.
+    destruct (eqb_spec a x) as [->|Hax].
+    - destruct (eqb_spec b x) as [->|Hbx]; [lia|].
+      destruct Hb as [Hb|Hb]; [congruence|]. apply before_head, Hb.
+    - destruct (eqb_spec b x) as [->|Hbx]; [lia|].
+      destruct Ha as [Ha|Ha]; [congruence|]. destruct Hb as [Hb|Hb]; [congruence|].
+      apply before_cons, IH; [exact Ha|exact Hb|lia].
+  Qed.
+
+  (** The formulation with positions: [l] is a permutation of the vertices and the position
+      strictly increases along every arc. *)
+  Theorem topo_order_iff_index (g : digraph) l :
+    wf g ->
+    (topo_order g l <->
+     Permutation l (verts g) /\ forall a b, arc g a b -> topo_index a l < topo_index b l).
+  Proof.
+    intros Hwf. split.
+    - intros Ht. split; [exact (proj1 Ht)|]. apply (@topo_order_index g l Hwf Ht).
+    - intros [Hperm Hidx]. split; [exact Hperm|]. intros a b Hab.
+      destruct (proj2 Hwf a b Hab) as [Ha Hb].
+      apply topo_index_before; [| |apply Hidx, Hab];
+        apply (Permutation_in _ (Permutation_sym Hperm)); assumption.
+  Qed.
+
+  Corollary is_topo_iff_index (g : digraph) l :
+    wf g ->
+    (is_topo eqb g l = true <->
+     Permutation l (verts g) /\ forall a b, arc g a b -> topo_index a l < topo_index b l).
+  Proof. intros Hwf. rewrite (is_topo_spec l Hwf). apply topo_order_iff_index, Hwf. Qed.
+
   (** ... so a graph that has one is acyclic, and a cyclic graph has none. *)
   Theorem topo_order_acyclic (g : digraph) l : wf g -> topo_order g l -> acyclic g.
   Proof.
-    intros Hwf Ht. apply (@rank_acyclic _ g (fun v => index v l)).
+    intros Hwf Ht. apply (@rank_acyclic _ g (fun v => topo_index v l)).
     intros a b Hab. apply (@topo_order_index g l Hwf Ht a b Hab).
   Qed.
 
@@ -935,6 +980,94 @@ Section QueriesProofs.
     intros Hwf Hac. split; intros Hin; apply (common_anc_spec a b _ Hwf) in Hin.
     - exact (Hac a (proj1 Hin)).
     - exact (Hac b (proj2 Hin)).
+  Qed.
+
+  (** * Extras *)
+
+  (** The cycle check as [_set_edge] uses it: after inserting the arc [a -> b] into an acyclic
+      graph, checking the DESTINATION [b] detects exactly the insertions that close a cycle. *)
+  Theorem set_edge_cycle_check (g : digraph) a b :
+    acyclic g ->
+    exists r, depends_on_itself eqb (length (arcs g) + 3) (add_arc g a b) b = Some r /\
+              (r = true <-> (a = b \/ path g b a)) /\
+              (r = false <-> acyclic (add_arc g a b)).
+  Proof.
+    intros Hac.
+    destruct (@depends_on_itself_correct (add_arc g a b) b (length (arcs g) + 3)) as (r & E & Hr).
+    { simpl. rewrite app_length. simpl. lia. }
+    exists r. split; [exact E|].
+    assert (Hcyc : path (add_arc g a b) b b <-> a = b \/ path g b a).
+    { rewrite path_add_arc_iff. split.
+      - intros [H|[[H|H] _]]; [destruct (Hac b H)|left; symmetry; exact H|right; exact H].
+      - intros [H|H]; right; (split; [|left; reflexivity]); [left; symmetry; exact H|right; exact H]. }
+    split; [rewrite Hr; exact Hcyc|]. split.
+    - intros ->. apply add_arc_acyclic_nowf; [exact Hac| |].
+      + intros Hab. assert (false = true) by (apply Hr, Hcyc; left; exact Hab). discriminate.
+      + intros Hp. assert (false = true) by (apply Hr, Hcyc; right; exact Hp). discriminate.
+    - intros Hac'. destruct r; [|reflexivity]. exfalso.
+      apply (Hac' b), Hr. reflexivity.
+  Qed.
+
+  (** Partial correctness of [directed_path_exists] on EVERY graph: whenever the model returns
+      (i.e. whenever the Python recursion terminates) the answer is right. *)
+  Lemma dpe_children_sound (g : digraph) b (rec : A -> option bool) :
+    forall cs,
+      (forall c r, In c cs -> rec c = Some r -> (r = true <-> path g c b)) ->
+      forall r, dpe_children rec cs = Some r -> (r = true <-> exists c, In c cs /\ path g c b).
+  Proof.
+    induction cs as [|c cs IH]; intros Hrec r Hr.
+    - inversion Hr; subst. split; [discriminate|]. intros (c & [] & _).
+    - cbn [dpe_children] in Hr. destruct (rec c) as [[|]|] eqn:Ec; [| |discriminate].
+      + inversion Hr; subst. split; [|reflexivity]. intros _.
+        exists c; split; [left; reflexivity|]. apply (Hrec c true (or_introl eq_refl) Ec). reflexivity.
+      + rewrite (IH (fun c' r' Hc' => Hrec c' r' (or_intror Hc')) r Hr). split.
+        * intros (c' & Hc' & Hp). exists c'; split; [right; exact Hc'|exact Hp].
+        * intros (c' & [<-|Hc'] & Hp).
+          -- apply (Hrec c false (or_introl eq_refl) Ec) in Hp. discriminate.
+          -- exists c'; split; assumption.
+  Qed.
+
+  Theorem directed_path_exists_sound (g : digraph) b :
+    forall fuel a r, directed_path_exists eqb fuel g a b = Some r -> (r = true <-> path g a b).
+  Proof.
+    unfold directed_path_exists. induction fuel as [|f IH]; intros x r Hr; [discriminate|].
+    cbn [dpe] in Hr. destruct (memb eqb b (children eqb g x)) eqn:Eb.
+    - inversion Hr; subst. split; [|reflexivity]. intros _. apply t_step, children_in, memb_in, Eb.
+    - rewrite (@dpe_children_sound g b (dpe eqb f g b) (children eqb g x) (fun c r' _ => IH c r') r Hr).
+      split.
+      + intros (c & Hc & Hp). eapply t_trans; [apply t_step, children_in, Hc|exact Hp].
+      + intros Hp. destruct (path_first Hp) as (z & Hxz & Hz). destruct Hz as [->|Hz].
+        * apply children_in, memb_in in Hxz. congruence.
+        * exists z; split; [apply children_in, Hxz|exact Hz].
+  Qed.
+
+  (** A directed path can be cut down to a simple one, so [get_all_causal_paths] is non-empty
+      exactly when the destination is a strict descendant of the source. *)
+  Lemma simple_path_exists (g : digraph) a b : a <> b -> path g a b -> exists p, simple_path g a b p.
+  Proof.
+    intros Hab Hp. apply path_chain in Hp. destruct Hp as (l & Hne & Hc & Hl).
+    destruct (@chain_simplify _ eqb eqb_spec g a l Hc Hne) as (l' & Hne' & Hc' & Hl' & Hnd' & _).
+    rewrite Hl in Hl'.
+    destruct (memb_reflect eqb eqb_spec a l') as [Hin|Hnin].
+    - apply in_split in Hin. destruct Hin as (l1 & l2 & ->).
+      exists (a :: l2), l2. split; [reflexivity|].
+      apply chain_app in Hc'. destruct Hc' as [_ [_ Hc2]].
+      rewrite last_app_cons in Hl'. split; [exact Hc2|]. split; [exact Hl'|].
+      apply NoDup_app_r in Hnd'. exact Hnd'.
+    - exists (a :: l'), l'. split; [reflexivity|]. split; [exact Hc'|]. split; [exact Hl'|].
+      constructor; assumption.
+  Qed.
+
+  Theorem all_paths_nonempty_iff (g : digraph) a b :
+    wf g -> a <> b -> (all_paths eqb g a b <> [] <-> path g a b).
+  Proof.
+    intros Hwf Hab. split.
+    - intros Hne. destruct (all_paths eqb g a b) as [|p ps] eqn:E; [contradiction|].
+      assert (Hp : In p (all_paths eqb g a b)) by (rewrite E; left; reflexivity).
+      apply (all_paths_spec a b p Hwf) in Hp. apply (simple_path_path (proj1 Hp) (proj2 Hp)).
+    - intros Hp E. destruct (simple_path_exists Hab Hp) as (p & Hsp).
+      assert (Hin : In p (all_paths eqb g a b)) by (apply (all_paths_spec a b p Hwf); split; assumption).
+      rewrite E in Hin. exact Hin.
   Qed.
 End QueriesProofs.
 
@@ -1029,3 +1162,216 @@ Section Rename.
       exists a. split; [reflexivity|]. apply (anc_spec eqa eqa_spec x a Hwf), Hp.
   Qed.
 End Rename.
+
+(** * Examples: non-vacuity of the hypotheses, and the behaviour observed on the real library
+
+    Vertices [0, 1, 2, ...] stand for the node names ['a', 'b', 'c', ...]; the arcs are listed in
+    the order in which the edges were added.  The expected values of the [py_*] examples were
+    produced by running cai_causal_graph (PYTHONPATH=/repo PYTHONHASHSEED=0 /venv/bin/python)
+    on the same graphs; results of networkx-backed queries are compared as sets. *)
+
+Fixpoint leqb (a b : list nat) : bool :=
+  match a, b with
+  | [], [] => true
+  | x :: a', y :: b' => Nat.eqb x y && leqb a' b'
+  | _, _ => false
+  end.
+Definition seteq (a b : list nat) : bool := seteqb Nat.eqb a b && Nat.eqb (length a) (length b).
+Definition llseteq (a b : list (list nat)) : bool := seteqb leqb a b && Nat.eqb (length a) (length b).
+Definition oseteq (a : option (list nat)) (b : list nat) : bool :=
+  match a with Some a => seteq a b | None => false end.
+Definition obeq (a : option bool) (b : bool) : bool :=
+  match a with Some a => Bool.eqb a b | None => false end.
+
+(** a -> b, a -> c, b -> d, c -> d, d -> e, b -> e, f -> c *)
+Definition qg : digraph nat :=
+  {| verts := [0; 1; 2; 3; 4; 5];
+     arcs := [(0, 1); (0, 2); (1, 3); (2, 3); (3, 4); (1, 4); (5, 2)] |}.
+(** a -> b -> c -> a, d -> a, c -> e, built with [validate=False] *)
+Definition qc : digraph nat :=
+  {| verts := [0; 1; 2; 3; 4]; arcs := [(0, 1); (1, 2); (2, 0); (3, 0); (2, 4)] |}.
+(** 0 = 'a lag(n=1)', 1 = 'a', 2 = 'b lag(n=1)', 3 = 'b' *)
+Definition qt : digraph nat :=
+  {| verts := [0; 1; 2; 3]; arcs := [(0, 1); (2, 3); (0, 3); (1, 3)] |}.
+Definition qt_lag (x : nat) : Z := nth x [(-1)%Z; 0%Z; (-1)%Z; 0%Z] 0%Z.
+
+Example qg_wf : wf qg.
+Proof. apply (proj1 (wfb_spec Nat.eqb Nat.eqb_spec _)); reflexivity. Qed.
+Example qg_acyclic : acyclic qg.
+Proof. apply (proj1 (acyclicb_spec Nat.eqb Nat.eqb_spec qg_wf)); reflexivity. Qed.
+Example qc_wf : wf qc.
+Proof. apply (proj1 (wfb_spec Nat.eqb Nat.eqb_spec _)); reflexivity. Qed.
+Example qc_cyclic : ~ acyclic qc.
+Proof.
+  intros H. apply (proj2 (acyclicb_spec Nat.eqb Nat.eqb_spec qc_wf)) in H.
+  vm_compute in H. discriminate.
+Qed.
+Example qt_wf : wf qt.
+Proof. apply (proj1 (wfb_spec Nat.eqb Nat.eqb_spec _)); reflexivity. Qed.
+Example qt_acyclic : acyclic qt.
+Proof. apply (proj1 (acyclicb_spec Nat.eqb Nat.eqb_spec qt_wf)); reflexivity. Qed.
+Example qt_lag_monotone : forall a b, arc qt a b -> (qt_lag a <= qt_lag b)%Z.
+Proof.
+  intros a b H. unfold arc in H. simpl in H.
+  repeat (destruct H as [H|H]; [inversion H; subst; vm_compute; discriminate|]). destruct H.
+Qed.
+
+(** The main theorems instantiated (their hypotheses are satisfiable). *)
+Example depends_on_itself_ex :
+  exists b, depends_on_itself Nat.eqb 7 qc 1 = Some b /\ (b = true <-> path qc 1 1).
+Proof. apply (depends_on_itself_correct Nat.eqb Nat.eqb_spec qc 1). simpl. lia. Qed.
+Example depends_on_itself_ex_value : depends_on_itself Nat.eqb 7 qc 1 = Some true.
+Proof. vm_compute. reflexivity. Qed.
+Example depends_on_itself_ex_fuel : depends_on_itself Nat.eqb 3 qc 1 = None.
+Proof. vm_compute. reflexivity. Qed.
+Example all_paths_ex p : In p (all_paths Nat.eqb qg 0 4) <-> 0 <> 4 /\ simple_path qg 0 4 p.
+Proof. apply (all_paths_spec Nat.eqb Nat.eqb_spec 0 4 p qg_wf). Qed.
+Example all_paths_ex_value :
+  all_paths Nat.eqb qg 0 4 = [[0; 1; 3; 4]; [0; 1; 4]; [0; 2; 3; 4]].
+Proof. vm_compute. reflexivity. Qed.
+Example nodes_between_ex :
+  exists S, nodes_between Nat.eqb 7 qg 5 4 = Some S /\
+    (forall v, In v S <-> ((v = 5 \/ path qg 5 v) /\ (v = 4 \/ path qg v 4))) /\
+    (~ (5 = 4 \/ path qg 5 4) -> S = []) /\ NoDup S.
+Proof. exact (nodes_between_correct Nat.eqb Nat.eqb_spec 5 4 qg_wf qg_acyclic). Qed.
+Example nodes_between_ex_value : nodes_between Nat.eqb 7 qg 5 4 = Some [5; 2; 3; 4].
+Proof. vm_compute. reflexivity. Qed.
+Example nodes_between_ex_none : nodes_between Nat.eqb 7 qg 4 0 = Some [].
+Proof. vm_compute. reflexivity. Qed.
+Example nodes_between_ex_fuel : nodes_between Nat.eqb 3 qg 0 4 = None.
+Proof. vm_compute. reflexivity. Qed.
+Example directed_path_exists_ex :
+  exists r, directed_path_exists Nat.eqb 6 qg 5 4 = Some r /\ (r = true <-> path qg 5 4).
+Proof.
+  apply (directed_path_exists_correct Nat.eqb Nat.eqb_spec 5 4 qg_wf qg_acyclic). simpl; tauto.
+Qed.
+(** On a cyclic graph the Python recursion never returns; the model runs out of any fuel we try. *)
+Example directed_path_exists_cyclic : directed_path_exists Nat.eqb 200 qc 0 3 = None.
+Proof. vm_compute. reflexivity. Qed.
+Example all_topo_ex : all_topo Nat.eqb qg <> [].
+Proof. exact (all_topo_nonempty Nat.eqb Nat.eqb_spec qg_wf qg_acyclic). Qed.
+Example all_topo_ex_cyclic : all_topo Nat.eqb qc = [].
+Proof. vm_compute. reflexivity. Qed.
+Example time_topo_ex : exists l, is_topo Nat.eqb qt l = true /\ lags_sorted qt_lag l = true.
+Proof. exact (time_topo_exists Nat.eqb Nat.eqb_spec qt_lag qt_wf qt_acyclic qt_lag_monotone). Qed.
+Example desc_rename_ex y :
+  In y (map (fun n => n + 10) (desc Nat.eqb qg 0)) <->
+  In y (desc Nat.eqb (map_graph (fun n => n + 10) qg) 10).
+Proof.
+  assert (Hinj : forall a b, a + 10 = b + 10 -> a = b) by (intros a b H; lia).
+  exact (desc_rename Nat.eqb Nat.eqb Nat.eqb_spec Nat.eqb_spec (fun n => n + 10) Hinj 0 y qg_wf).
+Qed.
+
+Example set_edge_cycle_check_ex :
+  exists r, depends_on_itself Nat.eqb 10 (add_arc qg 4 0) 0 = Some r /\
+            (r = true <-> (4 = 0 \/ path qg 0 4)) /\ (r = false <-> acyclic (add_arc qg 4 0)).
+Proof. exact (set_edge_cycle_check Nat.eqb Nat.eqb_spec 4 0 qg_acyclic). Qed.
+Example set_edge_cycle_check_ex_value :
+  depends_on_itself Nat.eqb 10 (add_arc qg 4 0) 0 = Some true /\
+  depends_on_itself Nat.eqb 10 (add_arc qg 5 0) 0 = Some false.
+Proof. vm_compute. split; reflexivity. Qed.
+Example all_topo_empty : all_topo Nat.eqb {| verts := []; arcs := [] |} = [[]].
+Proof. reflexivity. Qed.
+Example all_time_topo_empty :
+  all_time_topo Nat.eqb {| verts := []; arcs := [] |} (fun _ => 0%Z) = [[]].
+Proof. reflexivity. Qed.
+
+(** Behaviour observed on the real library. *)
+Example py_dep_1 : obeq (depends_on_itself Nat.eqb (length (arcs qg) + 2) qg 0) false = true.
+Proof. vm_compute. reflexivity. Qed.
+Example py_dep_2 : obeq (depends_on_itself Nat.eqb (length (arcs qg) + 2) qg 3) false = true.
+Proof. vm_compute. reflexivity. Qed.
+Example py_dep_3 : obeq (depends_on_itself Nat.eqb (length (arcs qg) + 2) qg 5) false = true.
+Proof. vm_compute. reflexivity. Qed.
+Example py_paths_4 : llseteq (all_paths Nat.eqb qg 0 4) [[0; 1; 3; 4]; [0; 1; 4]; [0; 2; 3; 4]] = true.
+Proof. vm_compute. reflexivity. Qed.
+Example py_between_5 : oseteq (nodes_between Nat.eqb (length (verts qg) + 1) qg 0 4) [0; 1; 2; 3; 4] = true.
+Proof. vm_compute. reflexivity. Qed.
+Example py_dpe_6 : obeq (directed_path_exists Nat.eqb (length (verts qg)) qg 0 4) true = true.
+Proof. vm_compute. reflexivity. Qed.
+Example py_common_7 : seteq (common_anc Nat.eqb qg 0 4) [] = true.
+Proof. vm_compute. reflexivity. Qed.
+Example py_isanc_8 : Bool.eqb (is_ancestor Nat.eqb qg 0 [4]) true = true.
+Proof. vm_compute. reflexivity. Qed.
+Example py_paths_9 : llseteq (all_paths Nat.eqb qg 5 4) [[5; 2; 3; 4]] = true.
+Proof. vm_compute. reflexivity. Qed.
+Example py_between_10 : oseteq (nodes_between Nat.eqb (length (verts qg) + 1) qg 5 4) [2; 3; 4; 5] = true.
+Proof. vm_compute. reflexivity. Qed.
+Example py_dpe_11 : obeq (directed_path_exists Nat.eqb (length (verts qg)) qg 5 4) true = true.
+Proof. vm_compute. reflexivity. Qed.
+Example py_common_12 : seteq (common_anc Nat.eqb qg 5 4) [] = true.
+Proof. vm_compute. reflexivity. Qed.
+Example py_isanc_13 : Bool.eqb (is_ancestor Nat.eqb qg 5 [4]) true = true.
+Proof. vm_compute. reflexivity. Qed.
+Example py_paths_14 : llseteq (all_paths Nat.eqb qg 0 0) [] = true.
+Proof. vm_compute. reflexivity. Qed.
+Example py_between_15 : oseteq (nodes_between Nat.eqb (length (verts qg) + 1) qg 0 0) [0] = true.
+Proof. vm_compute. reflexivity. Qed.
+Example py_dpe_16 : obeq (directed_path_exists Nat.eqb (length (verts qg)) qg 0 0) false = true.
+Proof. vm_compute. reflexivity. Qed.
+Example py_common_17 : seteq (common_anc Nat.eqb qg 0 0) [] = true.
+Proof. vm_compute. reflexivity. Qed.
+Example py_isanc_18 : Bool.eqb (is_ancestor Nat.eqb qg 0 [0]) false = true.
+Proof. vm_compute. reflexivity. Qed.
+Example py_paths_19 : llseteq (all_paths Nat.eqb qg 4 0) [] = true.
+Proof. vm_compute. reflexivity. Qed.
+Example py_between_20 : oseteq (nodes_between Nat.eqb (length (verts qg) + 1) qg 4 0) [] = true.
+Proof. vm_compute. reflexivity. Qed.
+Example py_dpe_21 : obeq (directed_path_exists Nat.eqb (length (verts qg)) qg 4 0) false = true.
+Proof. vm_compute. reflexivity. Qed.
+Example py_common_22 : seteq (common_anc Nat.eqb qg 4 0) [] = true.
+Proof. vm_compute. reflexivity. Qed.
+Example py_isanc_23 : Bool.eqb (is_ancestor Nat.eqb qg 4 [0]) false = true.
+Proof. vm_compute. reflexivity. Qed.
+Example py_paths_24 : llseteq (all_paths Nat.eqb qg 1 2) [] = true.
+Proof. vm_compute. reflexivity. Qed.
+Example py_between_25 : oseteq (nodes_between Nat.eqb (length (verts qg) + 1) qg 1 2) [] = true.
+Proof. vm_compute. reflexivity. Qed.
+Example py_dpe_26 : obeq (directed_path_exists Nat.eqb (length (verts qg)) qg 1 2) false = true.
+Proof. vm_compute. reflexivity. Qed.
+Example py_common_27 : seteq (common_anc Nat.eqb qg 1 2) [0] = true.
+Proof. vm_compute. reflexivity. Qed.
+Example py_isanc_28 : Bool.eqb (is_ancestor Nat.eqb qg 1 [2]) false = true.
+Proof. vm_compute. reflexivity. Qed.
+Example py_paths_29 : llseteq (all_paths Nat.eqb qg 0 3) [[0; 1; 3]; [0; 2; 3]] = true.
+Proof. vm_compute. reflexivity. Qed.
+Example py_between_30 : oseteq (nodes_between Nat.eqb (length (verts qg) + 1) qg 0 3) [0; 1; 2; 3] = true.
+Proof. vm_compute. reflexivity. Qed.
+Example py_dpe_31 : obeq (directed_path_exists Nat.eqb (length (verts qg)) qg 0 3) true = true.
+Proof. vm_compute. reflexivity. Qed.
+Example py_common_32 : seteq (common_anc Nat.eqb qg 0 3) [] = true.
+Proof. vm_compute. reflexivity. Qed.
+Example py_isanc_33 : Bool.eqb (is_ancestor Nat.eqb qg 0 [3]) true = true.
+Proof. vm_compute. reflexivity. Qed.
+Example py_desc_34 : seteq (get_descendants Nat.eqb qg 0) [1; 2; 3; 4] = true.
+Proof. vm_compute. reflexivity. Qed.
+Example py_anc_35 : seteq (get_ancestors Nat.eqb qg 0) [] = true.
+Proof. vm_compute. reflexivity. Qed.
+Example py_desc_36 : seteq (get_descendants Nat.eqb qg 2) [3; 4] = true.
+Proof. vm_compute. reflexivity. Qed.
+Example py_anc_37 : seteq (get_ancestors Nat.eqb qg 2) [0; 5] = true.
+Proof. vm_compute. reflexivity. Qed.
+Example py_desc_38 : seteq (get_descendants Nat.eqb qg 4) [] = true.
+Proof. vm_compute. reflexivity. Qed.
+Example py_anc_39 : seteq (get_ancestors Nat.eqb qg 4) [0; 1; 2; 3; 5] = true.
+Proof. vm_compute. reflexivity. Qed.
+Example py_topo_40 : llseteq (all_topo Nat.eqb qg) [[5; 0; 2; 1; 3; 4]; [5; 0; 1; 2; 3; 4]; [0; 1; 5; 2; 3; 4]; [0; 5; 2; 1; 3; 4]; [0; 5; 1; 2; 3; 4]] = true.
+Proof. vm_compute. reflexivity. Qed.
+Example py_topo_41 : is_topo Nat.eqb qg [0; 5; 1; 2; 3; 4] = true.
+Proof. vm_compute. reflexivity. Qed.
+Example py_dep_cyc_42 : obeq (depends_on_itself Nat.eqb (length (arcs qc) + 2) qc 0) true = true.
+Proof. vm_compute. reflexivity. Qed.
+Example py_dep_cyc_43 : obeq (depends_on_itself Nat.eqb (length (arcs qc) + 2) qc 1) true = true.
+Proof. vm_compute. reflexivity. Qed.
+Example py_dep_cyc_44 : obeq (depends_on_itself Nat.eqb (length (arcs qc) + 2) qc 2) true = true.
+Proof. vm_compute. reflexivity. Qed.
+Example py_dep_cyc_45 : obeq (depends_on_itself Nat.eqb (length (arcs qc) + 2) qc 3) false = true.
+Proof. vm_compute. reflexivity. Qed.
+Example py_dep_cyc_46 : obeq (depends_on_itself Nat.eqb (length (arcs qc) + 2) qc 4) false = true.
+Proof. vm_compute. reflexivity. Qed.
+Example py_time_47 : llseteq (all_time_topo Nat.eqb qt qt_lag) [[2; 0; 1; 3]; [0; 2; 1; 3]] = true.
+Proof. vm_compute. reflexivity. Qed.
+Example py_time_48 : llseteq (all_topo Nat.eqb qt) [[2; 0; 1; 3]; [0; 1; 2; 3]; [0; 2; 1; 3]] = true.
+Proof. vm_compute. reflexivity. Qed.
+Example py_time_49 : is_topo Nat.eqb qt [0; 2; 1; 3] && lags_sorted qt_lag [0; 2; 1; 3] = true.
+Proof. vm_compute. reflexivity. Qed.
